@@ -110,9 +110,11 @@ def generate(rng: random.Random, tier: str) -> dict:
     mode = rng.choice(["parse_message", "model_validate"])
     uuid_seed = rng.getrandbits(40)
     if api == "send_message":
-        id_shape = rng.choice(["auto", "str", "digits"])
+        id_shape = rng.choice(["auto", "str", "digits", "falsy"])
         if id_shape == "auto":
             mid = None
+        elif id_shape == "falsy":
+            mid = rng.choice(["", 0])  # documented behaviour: a falsy message_id means "generate one"
         elif id_shape == "str":
             mid = rng.choice(["req-1", "A", "abc-DEF", "x" * 40, "éid", "id with space"])
         else:
@@ -124,7 +126,7 @@ def generate(rng: random.Random, tier: str) -> dict:
     else:
         id_shape, mid = "auto", None
         _, method, params, _ = _helpers()[api]
-    rid = mid if mid is not None else str(FakeUUID(uuid_seed).value(0))
+    rid = mid if mid else str(FakeUUID(uuid_seed).value(0))
     deadline_t = t0 + int(timeout / TICK)
     horizon = deadline_t + 30
     nmax = 12 if big else 8
@@ -233,7 +235,7 @@ def execute(scn: dict) -> dict:
 
     api, mode, timeout, t0 = scn["api"], scn["mode"], scn["timeout"], scn["t0"]
     fu = FakeUUID(scn["uuid_seed"])
-    rid = scn["message_id"] if scn["message_id"] is not None else str(fu.value(0))
+    rid = scn["message_id"] if scn["message_id"] else str(fu.value(0))
     T0 = ticks(t0)
     st = {}
 
